@@ -278,5 +278,26 @@ theorem pstep_sim (kind : Kind) (h : Nat → Nat) (ps : PState) (s : State) (op 
     cases Table.equal kind (s.get t) (s.get u) with
     | none => trivial
     | some b => exact ⟨by triv, hp⟩
+  | notEqual t u =>
+    simp only [pstep, step, hav, Bool.not_true, Bool.false_eq_true, if_false,
+      (hp.get t).1.equal (hp.get u).1 (hs.get t) (hs.get u) kind]
+    cases Table.equal kind (s.get t) (s.get u) with
+    | none => trivial
+    | some b => exact ⟨by triv, hp⟩
+  | iterBack t =>
+    simp only [pstep, step, hav, Bool.not_true, Bool.false_eq_true, if_false, (hp.get t).1.orderBack_eq (hs.get t)]
+    refine ⟨?_, hp⟩
+    simp only [Table.entry, Out.entries.injEq]
+    apply List.map_congr_left
+    intro j _
+    rw [((hp.get t).1.kv j).1, ((hp.get t).1.kv j).2]
+    rfl
+  | entryAt t pos =>
+    simp only [pstep, step, hav, Bool.not_true, Bool.false_eq_true, if_false, (hp.get t).1.order_eq (hs.get t)]
+    cases (s.get t).order[pos]? with
+    | none => trivial
+    | some id =>
+      refine ⟨?_, hp⟩
+      simp only [Table.entry, ((hp.get t).1.kv id).1, ((hp.get t).1.kv id).2]
 
 end Nstd.Hash.Ptr
